@@ -58,7 +58,8 @@ def run(ctx, focus, lite=False, rep=None):
             raise vf.Infra("witness goal %s is unreachable in the specification (vacuous)" % goal)
         cases.append(rolltrace.convert(tj, 2, goal))
     # 3. simulated behaviours
-    write_cfg(ctx, "Gen_Rolling_sim", writes=6, ticks=12, outages=2, restarts=1,
+    write_cfg(ctx, "Gen_Rolling_sim", writers="1, 2, 3, 4" if thorough else "1, 2", writes=10 if thorough else 6,
+              ticks=12, outages=3 if thorough else 2, restarts=1,
               extra='          MaxSteps = 120  Goal = ""', spec="GenSpec",
               inv="TypeOK SequentialFresh ExactlyOnce NothingLost NoDuplicateAnywhere NotBeforeName NameLaw FdBound FdZeroAfterStop GenEmit",
               props="")
